@@ -18,6 +18,7 @@ RULE += ' 7% of the order requests are a buy and a sell of the same size for one
 RULE += ' Kept handles as in C01; 4% of the time steps add 1-999 ns to the instant.'
 RULE += ' A refused request (e.g. a duplicate create_portfolio) must leave the pending orders of every portfolio as they were; start instants before 1970 are among the choices.'
 RULE += ' Round 11: directed script through the REAL BacktestDataHandler over CSV files (handler given no universe / a universe narrower than the orders / a dynamic universe whose entry for the traded asset is later; one or two sources): both orders are filled in full exactly once at the in-hours update and not again at the next.'
+RULE += ' Round 12: in 30% of the real-handler scripts the CSV directory is named relative to a working directory the program leaves before the first lookup.'
 ASSUMPTIONS = [
     'times are non-decreasing and every ordered asset has a quote (the quantifier); UTC timestamps',
     'fill order across different portfolios is not observable through the API and is only recorded',
